@@ -10,11 +10,24 @@
 //!             one-channel frame: one value per frame, amp = one value)
 //! op: 0 equilibrium, 1 map_in_place, 2 zip_map_in_place, 3 write, 4 add_in_place,
 //!     5 add_in_place_with_amp_per_channel
+//!   `W <op> <fmt> <shape> ; a flat ; b flat ; amp (one value per channel) ; k`
+//! the in-place operations over EVERY sample format: fmt = 0 i8, 1 i16, 2 I24, 3 i32, 4 I48, 5 i64, 6 u8, 7 u16,
+//! 8 U24, 9 u32, 10 U48, 11 u64, 12 f32, 13 f64 (the codes of C03) is FA's sample format; shape 0 = the bare sample
+//! type is the frame, 2 / 3 = [S; 2] / [S; 3]; b = frames of the Signed format (op 3 write: of FA's format), amp = a
+//! frame of the Float format of the Signed format, k = a Signed sample.  Values may need more than 64 bits (u64,
+//! f64 bit patterns): parsed and printed as i128.  op 1 = map_in_place(a, |f| f.offset_amp(k)),
+//! op 2 = zip_map_in_place(a, b, |x, y| x.add_amp(y.scale_amp(amp[0]))).  A panic inside the frame operation (the
+//! overflow check of `+`: code 1, the `expect` of the I24/I48 operators: code 4) is caught and the destination
+//! printed as it was left.
+//!   `I <fmt> ; d0 d1 ...`   the identity impls (a slice of samples viewed as a slice of samples, a slice of
+//! [S; 2] frames viewed as a slice of the same frames, shared / mutable / boxed) and the free-function forms
+//! `to_boxed_frame_slice` / `to_boxed_sample_slice`; fmt as for V.
 //!
 //! Observations: `0` None, `1 same len ...` a view (same = 1 iff its data pointer equals the
 //! original's; raw addresses are never printed), `4 d` a live-heap-bytes delta, `5 ...` contents,
 //! `7` completed, `8 code` panic.
-use dasp_sample::{Sample, I24};
+use dasp_frame::Frame;
+use dasp_sample::{Sample, I24, I48, U24, U48};
 use dasp_slice::{ToBoxedFrameSlice, ToBoxedSampleSlice};
 use dasp_verif_harness::*;
 use std::alloc::{GlobalAlloc, Layout, System};
@@ -386,9 +399,316 @@ fn op_case(op: i64, fmt: i64, k: i64, g: &Vec<Vec<i64>>) -> String {
     }
 }
 
+// ---------------------------------------------------------------------------
+// `W`: the in-place operations over every sample format and three frame shapes
+
+/// lossless transport of a sample of any of the 14 formats (floats as bit patterns, NaN canonicalised on output)
+trait Cd: Copy {
+    fn mk(v: i128) -> Self;
+    fn val(self) -> i128;
+}
+macro_rules! prim_cd { ($($T:ty)*) => {$( impl Cd for $T {
+    #[inline] fn mk(v: i128) -> Self { v as $T }
+    #[inline] fn val(self) -> i128 { self as i128 }
+} )*}; }
+prim_cd! { i8 i16 i32 i64 u8 u16 u32 u64 }
+macro_rules! custom_cd { ($($T:ident $Rep:ty;)*) => {$( impl Cd for $T {
+    #[inline] fn mk(v: i128) -> Self { $T::new_unchecked(v as $Rep) }
+    #[inline] fn val(self) -> i128 { self.inner() as i128 }
+} )*}; }
+custom_cd! { I24 i32; I48 i64; U24 i32; U48 i64; }
+impl Cd for f32 {
+    fn mk(v: i128) -> Self { f32::from_bits(v as u32) }
+    fn val(self) -> i128 { if self.is_nan() { 0x7FC0_0000 } else { self.to_bits() as i128 } }
+}
+impl Cd for f64 {
+    fn mk(v: i128) -> Self { f64::from_bits(v as u64) }
+    fn val(self) -> i128 { if self.is_nan() { 0x7FF8_0000_0000_0000 } else { self.to_bits() as i128 } }
+}
+
+/// a frame type built from / flattened to its channel values without going through dasp_frame's own constructors
+trait Fr: Frame {
+    fn build(v: &[i128]) -> Self;
+    fn flat(&self, out: &mut Vec<i128>);
+}
+impl<S: Sample + Cd, const N: usize> Fr for [S; N]
+where
+    [S; N]: Frame<Sample = S>,
+{
+    fn build(v: &[i128]) -> Self {
+        assert!(v.len() == N, "harness: frame with {} values, N = {}", v.len(), N);
+        core::array::from_fn(|i| S::mk(v[i]))
+    }
+    fn flat(&self, out: &mut Vec<i128>) {
+        for s in self.iter() {
+            out.push(s.val());
+        }
+    }
+}
+macro_rules! bare_fr { ($($T:ty)*) => {$( impl Fr for $T {
+    fn build(v: &[i128]) -> Self { assert!(v.len() == 1, "harness: bare frame with {} values", v.len()); <$T as Cd>::mk(v[0]) }
+    fn flat(&self, out: &mut Vec<i128>) { out.push(self.val()); }
+} )*}; }
+bare_fr! { i8 i16 I24 i32 I48 i64 u8 u16 U24 u32 U48 u64 f32 f64 }
+
+fn frames<F: Fr>(v: &[i128]) -> Vec<F> {
+    assert!(v.len() % F::CHANNELS == 0, "harness: {} values for {}-channel frames", v.len(), F::CHANNELS);
+    v.chunks(F::CHANNELS).map(|c| F::build(c)).collect()
+}
+fn flat_all<F: Fr>(fs: &[F]) -> Vec<i128> {
+    let mut out = Vec::with_capacity(fs.len() * F::CHANNELS);
+    for f in fs {
+        f.flat(&mut out);
+    }
+    out
+}
+fn obs128(tag: i64, v: &[i128]) -> String {
+    let mut s = tag.to_string();
+    for x in v {
+        s.push(' ');
+        s.push_str(&x.to_string());
+    }
+    s
+}
+
+/// panic kinds as the model's: 1 rustc overflow check, 2 index, 3 assert, 4 `expect` of the I24/I48 operators
+fn catch_w<T>(f: impl FnOnce() -> T) -> Result<T, i64> {
+    std::panic::catch_unwind(std::panic::AssertUnwindSafe(f)).map_err(|p| {
+        let msg: String = if let Some(s) = p.downcast_ref::<&str>() {
+            s.to_string()
+        } else if let Some(s) = p.downcast_ref::<String>() {
+            s.clone()
+        } else {
+            String::new()
+        };
+        if msg == "arithmetic operation overflowed" {
+            4
+        } else if msg.contains("overflow") {
+            1
+        } else if msg.contains("assertion") {
+            3
+        } else if msg.contains("out of bounds") || msg.contains("out of range") {
+            2
+        } else {
+            9
+        }
+    })
+}
+
+fn w_run<FA, FB, A>(op: i64, g: &[Vec<i128>]) -> String
+where
+    FA: Fr,
+    FB: Fr + Frame<Sample = <FA::Sample as Sample>::Signed, NumChannels = FA::NumChannels>,
+    A: Fr + Frame<Sample = <FB::Sample as Sample>::Float, NumChannels = FB::NumChannels>,
+    FB::Sample: Cd,
+    A::Sample: Cd,
+{
+    let mut a: Vec<FA> = frames(&g[1]);
+    let before = flat_all(&a);
+    let st = catch_w(|| match op {
+        0 => dasp_slice::equilibrium(&mut a[..]),
+        1 => {
+            let k = <FB::Sample as Cd>::mk(g[4][0]);
+            dasp_slice::map_in_place(&mut a[..], |f: FA| f.offset_amp(k))
+        }
+        2 => {
+            let bb: Vec<FB> = frames(&g[2]);
+            let gain = <A::Sample as Cd>::mk(g[3][0]);
+            dasp_slice::zip_map_in_place(&mut a[..], &bb[..], |x: FA, y: FB| x.add_amp(y.scale_amp(gain)))
+        }
+        3 => {
+            let bb: Vec<FA> = frames(&g[2]);
+            dasp_slice::write(&mut a[..], &bb[..])
+        }
+        4 => {
+            let bb: Vec<FB> = frames(&g[2]);
+            dasp_slice::add_in_place(&mut a[..], &bb[..])
+        }
+        5 => {
+            let bb: Vec<FB> = frames(&g[2]);
+            let amp: A = A::build(&g[3]);
+            dasp_slice::add_in_place_with_amp_per_channel(&mut a[..], &bb[..], amp)
+        }
+        _ => panic!("harness: unknown W op {}", op),
+    });
+    let status = match st {
+        Ok(()) => "7".to_string(),
+        Err(c) => format!("8 {}", c),
+    };
+    format!("{};{};{}", obs128(5, &before), status, obs128(5, &flat_all(&a)))
+}
+
+macro_rules! w_fmt {
+    ($op:expr, $shape:expr, $g:expr, $S:ty, $SG:ty, $FL:ty) => {
+        match $shape {
+            0 => w_run::<$S, $SG, $FL>($op, $g),
+            2 => w_run::<[$S; 2], [$SG; 2], [$FL; 2]>($op, $g),
+            3 => w_run::<[$S; 3], [$SG; 3], [$FL; 3]>($op, $g),
+            n => panic!("harness: no W instance for shape {}", n),
+        }
+    };
+}
+
+fn w_case(line: &str) -> String {
+    let rest = &line[line.find('W').unwrap() + 1..];
+    let mut g: Vec<Vec<i128>> = rest
+        .split(';')
+        .map(|p| p.split_whitespace().map(|t| t.parse::<i128>().expect("int token")).collect())
+        .collect();
+    while g.len() < 5 {
+        g.push(Vec::new());
+    }
+    if g[4].is_empty() {
+        g[4].push(0);
+    }
+    let (op, fmt, shape) = (g[0][0] as i64, g[0][1], g[0][2]);
+    match fmt {
+        0 => w_fmt!(op, shape, &g, i8, i8, f32),
+        1 => w_fmt!(op, shape, &g, i16, i16, f32),
+        2 => w_fmt!(op, shape, &g, I24, I24, f32),
+        3 => w_fmt!(op, shape, &g, i32, i32, f32),
+        4 => w_fmt!(op, shape, &g, I48, I48, f64),
+        5 => w_fmt!(op, shape, &g, i64, i64, f64),
+        6 => w_fmt!(op, shape, &g, u8, i8, f32),
+        7 => w_fmt!(op, shape, &g, u16, i16, f32),
+        8 => w_fmt!(op, shape, &g, U24, i32, f32),
+        9 => w_fmt!(op, shape, &g, u32, i32, f32),
+        10 => w_fmt!(op, shape, &g, U48, i64, f64),
+        11 => w_fmt!(op, shape, &g, u64, i64, f64),
+        12 => w_fmt!(op, shape, &g, f32, f32, f32),
+        13 => w_fmt!(op, shape, &g, f64, f64, f64),
+        n => panic!("harness: unknown W format {}", n),
+    }
+}
+
+// ---------------------------------------------------------------------------
+// `I`: the identity impls (a slice of S as a slice of S, a slice of F as a slice of F; shared, mutable, boxed) and
+// the free-function forms `to_boxed_frame_slice` / `to_boxed_sample_slice`
+
+macro_rules! ident_body {
+    ($S:ident, $g:expr) => {{
+        let g: &Vec<Vec<i64>> = $g;
+        let d = &g[1];
+        let mut out: Vec<String> = Vec::new();
+        let mut v: Vec<$S> = d.iter().map(|&x| <$S as Smp>::from_i64(x)).collect();
+        let p0 = v.as_ptr() as usize;
+        // samples as samples: FromSampleSlice / ToSampleSlice (+ Mut) for &[S]
+        out.push(match dasp_slice::from_sample_slice::<&[$S], $S>(&v[..]) {
+            None => obs(0, &[]),
+            Some(ss) => sview::<$S>(p0, ss),
+        });
+        out.push(sview::<$S>(p0, dasp_slice::to_sample_slice::<&[$S], $S>(&v[..])));
+        out.push(match dasp_slice::from_sample_slice_mut::<&mut [$S], $S>(&mut v[..]) {
+            None => obs(0, &[]),
+            Some(ss) => obs(1, &[b(ss.as_ptr() as usize == p0), ss.len() as i64]),
+        });
+        {
+            let ss = dasp_slice::to_sample_slice_mut::<&mut [$S], $S>(&mut v[..]);
+            out.push(obs(1, &[b(ss.as_ptr() as usize == p0), ss.len() as i64]));
+        }
+        // frames as frames: FromFrameSlice / ToFrameSlice (+ Mut) for &[F], F = [S; 2]
+        let k = v.len() / 2;
+        let mut fv: Vec<[$S; 2]> = (0..k).map(|i| [v[2 * i], v[2 * i + 1]]).collect();
+        let q0 = fv.as_ptr() as usize;
+        out.push(fview::<$S, 2>(q0, dasp_slice::from_frame_slice::<&[[$S; 2]], [$S; 2]>(&fv[..])));
+        out.push(match dasp_slice::to_frame_slice::<&[[$S; 2]], [$S; 2]>(&fv[..]) {
+            None => obs(0, &[]),
+            Some(fs) => fview::<$S, 2>(q0, fs),
+        });
+        {
+            let fs = dasp_slice::from_frame_slice_mut::<&mut [[$S; 2]], [$S; 2]>(&mut fv[..]);
+            out.push(obs(1, &[b(fs.as_ptr() as usize == q0), fs.len() as i64]));
+        }
+        out.push(match dasp_slice::to_frame_slice_mut::<&mut [[$S; 2]], [$S; 2]>(&mut fv[..]) {
+            None => obs(0, &[]),
+            Some(fs) => obs(1, &[b(fs.as_ptr() as usize == q0), fs.len() as i64]),
+        });
+        // boxed identities: every number is taken before any string is built
+        let mut rec: Vec<Vec<i64>> = Vec::with_capacity(16);
+        {
+            let bx: Box<[$S]> = v.clone().into_boxed_slice();
+            let p = bx.as_ptr() as usize;
+            let l0 = live();
+            let r = dasp_slice::from_boxed_sample_slice::<Box<[$S]>, $S>(bx);
+            let l1 = live();
+            match r {
+                None => rec.push(vec![0, l1 - l0]),
+                Some(sb) => {
+                    let mut o = vec![1, b(sb.as_ptr() as usize == p), sb.len() as i64, l1 - l0];
+                    o.extend(flat_samples::<$S>(&sb[..]));
+                    rec.push(o);
+                    let l2 = live();
+                    let sb2 = dasp_slice::to_boxed_sample_slice::<Box<[$S]>, $S>(sb);
+                    let l3 = live();
+                    let mut o = vec![1, b(sb2.as_ptr() as usize == p), sb2.len() as i64, l3 - l2];
+                    o.extend(flat_samples::<$S>(&sb2[..]));
+                    rec.push(o);
+                }
+            }
+            let fb: Box<[[$S; 2]]> = fv.clone().into_boxed_slice();
+            let q = fb.as_ptr() as usize;
+            let l0 = live();
+            let r = dasp_slice::to_boxed_frame_slice::<Box<[[$S; 2]]>, [$S; 2]>(fb);
+            let l1 = live();
+            match r {
+                None => rec.push(vec![0, l1 - l0]),
+                Some(fb1) => {
+                    let mut o = vec![1, b(fb1.as_ptr() as usize == q), fb1.len() as i64, l1 - l0];
+                    o.extend(flat_frames::<$S, 2>(&fb1[..]));
+                    rec.push(o);
+                    let l2 = live();
+                    let fb2 = dasp_slice::from_boxed_frame_slice::<Box<[[$S; 2]]>, [$S; 2]>(fb1);
+                    let l3 = live();
+                    let mut o = vec![1, b(fb2.as_ptr() as usize == q), fb2.len() as i64, l3 - l2];
+                    o.extend(flat_frames::<$S, 2>(&fb2[..]));
+                    rec.push(o);
+                }
+            }
+        }
+        // the free-function forms of the real conversions (N = 2): samples -> frames -> samples
+        {
+            let l0 = live();
+            let bx: Box<[$S]> = d.iter().map(|&x| <$S as Smp>::from_i64(x)).collect::<Vec<$S>>().into_boxed_slice();
+            let l1 = live();
+            rec.push(vec![4, l1 - l0]);
+            let p = bx.as_ptr() as usize;
+            let a0 = live();
+            let r = dasp_slice::to_boxed_frame_slice::<Box<[$S]>, [$S; 2]>(bx);
+            let a1 = live();
+            match r {
+                None => rec.push(vec![0, a1 - a0]),
+                Some(fb) => {
+                    let mut o = vec![1, b(fb.as_ptr() as usize == p), fb.len() as i64, a1 - a0];
+                    o.extend(flat_frames::<$S, 2>(&fb[..]));
+                    rec.push(o);
+                    let c0 = live();
+                    let sb = dasp_slice::to_boxed_sample_slice::<Box<[[$S; 2]]>, $S>(fb);
+                    let c1 = live();
+                    let mut o = vec![1, b(sb.as_ptr() as usize == p), sb.len() as i64, c1 - c0];
+                    o.extend(flat_samples::<$S>(&sb[..]));
+                    rec.push(o);
+                    let e0 = live();
+                    drop(sb);
+                    let e1 = live();
+                    rec.push(vec![4, e1 - e0]);
+                }
+            }
+        }
+        out.extend(rec.iter().map(|o| obs(o[0], &o[1..])));
+        out.join(";")
+    }};
+}
+
+fn ident_case<S: Smp>(g: &Vec<Vec<i64>>) -> String {
+    ident_body!(S, g)
+}
+
 fn main() {
     serve(|line| {
         let kind = line.split_whitespace().next().unwrap_or("");
+        if kind == "W" {
+            return w_case(line);
+        }
         let rest = &line[line.find(kind).unwrap() + kind.len()..];
         let mut g: Vec<Vec<i64>> = rest.split(';').map(ints).collect();
         while g.len() < 6 {
@@ -409,6 +729,13 @@ fn main() {
                 2 => boxed_case::<f32>(h[1], &g),
                 3 => boxed_case::<I24>(h[1], &g),
                 _ => boxed_case::<u64>(h[1], &g),
+            },
+            "I" => match h[0] {
+                0 => ident_case::<u8>(&g),
+                1 => ident_case::<i16>(&g),
+                2 => ident_case::<f32>(&g),
+                3 => ident_case::<I24>(&g),
+                _ => ident_case::<u64>(&g),
             },
             "Z" => op_case(h[0], h[1], h[2], &g),
             other => panic!("unknown case kind {}", other),
